@@ -25,6 +25,8 @@ def main():
                 missed.append(f"{k} (exit {v.get('exit')})")
         title = (m.get("title") or m.get("what_changed") or "")
         title = " ".join(str(title).split())[:110].replace("|", "/")
+        if m.get("superseded"):
+            title += " [no longer a defect on the repaired tree, see meta]"
         rows.append((m["id"], "yes" if m.get("confirmed") else "NO", title,
                      "; ".join(caught) or "-", "; ".join(missed) or "-"))
     print("| seeded change | confirmed | what | caught by | not caught by |")
